@@ -41,6 +41,7 @@ class FileStub(object):
 def make_listing(c, T, n, cls='t2listing', shared=None, k0name='k0'):
     """a listing object 'positioned directly at k0' with k0 symbolic."""
     lst = getattr(T, cls).__new__(getattr(T, cls))
+    lst._table = {}           # (no tables in the kernel tier unless attach_tables() adds some)
     if shared is None:
         times = [c.real('t%d' % k) for k in range(n)]
         steps = [c.int('s%d' % k) for k in range(n)]
@@ -362,6 +363,9 @@ from fractions import Fraction
 FILE_MAXFAIL = int(os.environ.get('C07_MAXFAIL', '8') or 8)
 
 
+def _isnan(x): return isinstance(x, float) and x != x
+
+
 def _c06():
     from harness import C06
     return C06
@@ -428,6 +432,10 @@ def alphabet(P):
     seq2 = tuple(tn[:2]) if len(tn) > 1 else (tn[0],)
     vm = [v for v in C06.variants(P, seq2) if v[0].startswith('mixed')][0]
     A.append(dict(label='history', kind='history', arg=dict(items=vm[2], form='list', short=not P['has_short'])))
+    # a valid table and row with a column the table does not have: history() may refuse (raise), but the
+    # listing must afterwards still be where it was
+    it = dict(v1[0][2][0]); it['arg'] = (it['arg'][0], it['arg'][1], 'NoSuchColumn')
+    A.append(dict(label='history-unknown-column', kind='history', may_raise=True, arg=dict(items=[it], form='tuple', short=True)))
     return A, times, steps
 
 
@@ -462,14 +470,15 @@ def file_sequences(P, tier, skip=None):
         if kk == n - 1: add(0, [la]); add(max(kk - 1, 0), [la]); add(kk, [fi, la])
         if kk < n - 1: add(kk + 1, [ix(kk)]); add(kk + 1, [pv])
     # single actions
-    for i, a in enumerate(A):
+    # (history() first: a listing on which plain navigation already fails stops the task after a few failures)
+    for i, a in enumerate(sorted(A, key=lambda a: a['kind'] != 'history')):
         ss = starts if (tier == 'thorough' or a['kind'] in ('next', 'prev')) else [starts[i % len(starts)], starts[(i + 1) % len(starts)]]
         for s0 in sorted(set(ss)): add(s0, [a])
     # pairs / triples: by label, arguments of a label rotating
     bylab = {}
     for a in A: bylab.setdefault(a['label'], []).append(a)
     labels = list(bylab)
-    base = ['first', 'last', 'next', 'prev', 'index', 'index-neg', 'time', 'step', 'history']
+    base = ['first', 'last', 'next', 'prev', 'index', 'index-neg', 'time', 'step', 'history', 'history-unknown-column']
     rot = [0]
     def pick(lab):
         if lab in bylab: c = bylab[lab]
@@ -510,7 +519,8 @@ def _apply(lst, act):
 def _act_json(act):
     if act['kind'] == 'history':
         a = act['arg']
-        return [act['label'], 'history', dict(selection=[list(x['arg']) for x in a['items']], form=a['form'], short=a['short'])]
+        return [act['label'], 'history', dict(selection=[list(x['arg']) for x in a['items']], form=a['form'], short=a['short'],
+                                             may_raise=bool(act.get('may_raise')))]
     return [act['label'], act['kind'], act['arg']]
 
 
@@ -621,7 +631,7 @@ def task_file_nav(rel, tier, part=0, nparts=1, skip=None, maxseq=None, derive=No
                 for i, (u, v) in enumerate(zip(a.flat, b.flat)):
                     if u is v: continue
                     if isinstance(u, SReal) or isinstance(v, SReal):
-                        if any(isinstance(x, float) and x != x for x in (u, v)):
+                        if _isnan(u) or _isnan(v):
                             fail(seqlab, 'tables', '%s: table %s row %d is nan in one reader' % (what0, tn, i // ncol), log); return False
                         ue, ve = sym.lift_real(u), sym.lift_real(v)
                         pu, pv = strs.num_parts(ue), strs.num_parts(ve)
@@ -634,7 +644,7 @@ def task_file_nav(rel, tier, part=0, nparts=1, skip=None, maxseq=None, derive=No
                             items.append((fm, lab))
                         else:
                             items.append((ue == ve, lab))
-                    elif not (u == v):
+                    elif not (u == v) and not (_isnan(u) and _isnan(v)):
                         fail(seqlab, 'tables', '%s: table %s row %d column %d shows %r, a fresh reader positioned there shows %r' % (
                             what0, tn, i // ncol, i % ncol, u, v), log)
                         return False
@@ -660,8 +670,11 @@ def task_file_nav(rel, tier, part=0, nparts=1, skip=None, maxseq=None, derive=No
         lst = None
         log = []
         kexp = None
+        broken = set()       # action labels whose own step failed in this task: later sequences using them are skipped
         for sq in seqs:
             if nfail[0] >= FILE_MAXFAIL: break
+            if any(a['label'] in broken for a in sq['acts']):
+                counters['skipped'] = counters.get('skipped', 0) + 1; continue
             counters['sequences'] += 1
             acts = list(sq['acts'])
             if lst is None:
@@ -689,7 +702,8 @@ def task_file_nav(rel, tier, part=0, nparts=1, skip=None, maxseq=None, derive=No
                 except c6.NonTermination as ex: err = ('terminates', 'does not return: %s' % ex)
                 except sym.EngineAbort:
                     f.disarm(); raise
-                except Exception as ex: err = ('no-exception', 'raised %s: %s' % (type(ex).__name__, c05._extext(ex)))
+                except Exception as ex:
+                    if not act.get('may_raise'): err = ('no-exception', 'raised %s: %s' % (type(ex).__name__, c05._extext(ex)))
                 f.disarm()
                 bad = False
                 if err is not None:
@@ -703,6 +717,7 @@ def task_file_nav(rel, tier, part=0, nparts=1, skip=None, maxseq=None, derive=No
                     if snap is None or not compare(lst, snap, seqlab, log, what0): bad = True
                 if bad:
                     lst = None      # reopen for the next sequence
+                    if not act.get('positioning'): broken.add(act['label'])
                     break
                 kexp = want
         if not samples:
@@ -714,7 +729,7 @@ def task_file_nav(rel, tier, part=0, nparts=1, skip=None, maxseq=None, derive=No
 
     res = sym.explore(h, sym.Ctx(timeout_ms=10000), max_paths=3, profile_repo=(tier == 'quick' and part == 0 and len(raw) < 1500))
     extra = dict(distinct_obligations=len(distinct), simulator=P['simulator'], sequences=counters['sequences'], actions=counters['actions'],
-                 fresh_readers=counters['fresh'], cells_compared=counters['cells'], symbolic_lines=len(symlines), late_tables=late_tables(P),
+                 fresh_readers=counters['fresh'], cells_compared=counters['cells'], sequences_skipped_after_failure=counters.get('skipped', 0), symbolic_lines=len(symlines), late_tables=late_tables(P),
                  file_tier=True)
     if not counters['reached']: extra['vacuous'] = True
     seen, keep = {}, []
@@ -768,8 +783,18 @@ FILE_SKIP_THOROUGH.update({'TOUGH2/8/OUTFILE': (('connection',), ('element',), (
                            'TOUGH2-MP/6/OUTPUT_DATA': (('element',), ('connection',)),
                            'TOUGHREACT/1/case1.out': (('connection',),),
                            'TOUGHplus/1/case1.dat': (('element1',), ('connection', 'element2'))})
-FILE_DERIVED = {'TOUGH2/8/OUTFILE': ('final-primary', 'late-primary')}
-FILE_DERIVED_THOROUGH = {'TOUGH2/8/OUTFILE': ('final-primary', 'late-primary', 'final-connection+primary', 'late-connection'),
+FILE_DERIVED = {'TOUGH2/8/OUTFILE': ('final-primary', 'late-primary'),
+                'TOUGH2/2/rfp.listing': ('shortfirst-generation', 'mid-generation', 'keep-2'),
+                'AUTOUGH2/4/case4.listing': ('mid-connection',)}
+FILE_DERIVED_THOROUGH = {'TOUGH2/2/rfp.listing': ('shortfirst-generation', 'mid-generation', 'keep-2', 'keep-1'),
+                         'TOUGH2/7/case7.out': ('shortfirst-generation',),
+                         'TOUGH2/11/case11.listing': ('shortfirst-generation', 'mid-generation', 'mid-connection', 'keep-2'),
+                         'TOUGH2-MP/6/OUTPUT_DATA': ('mid-connection', 'keep-3'),
+                         'TOUGHREACT/1/case1.out': ('shortfirst-generation',),
+                         'TOUGH3/2/OUTPUT': ('keep-1',),
+                         'AUTOUGH2/4/case4.listing': ('keep-3', 'mid-connection', 'mid-generation'),
+                         'TOUGHplus/3/1p_out.dat': ('keep-5',),
+                         'TOUGH2/8/OUTFILE': ('final-primary', 'late-primary', 'final-connection+primary', 'late-connection', 'mid-primary', 'mid-generation', 'keep-2'),
                          'TOUGH2/9/OUTFILE': ('final-primary', 'late-primary', 'final-connection+primary'),
                          'TOUGH2/4/case4.out': ('final-primary', 'final-connection+primary')}
 
